@@ -31,11 +31,19 @@ extern "C" int LLVMFuzzerTestOneInput(const uint8_t * data, size_t size)
     g.set_process(bxdecay0::dbd_gA::PROCESS_G0);
     g.set_shooting(pdf ? bxdecay0::dbd_gA::SHOOTING_REJECTION : bxdecay0::dbd_gA::SHOOTING_INVERSE_TRANSFORM_METHOD);
     g.initialize();
-    // loaded: the sampler must now stay in bounds and finite (bounded work: draw cap)
+    // loaded: the sampler must now stay in bounds and finite (bounded work: draw cap); besides i.i.d. deviates the first two
+    // deviates are steered over a grid with both tails, so that the first and the last row/cell of whatever was loaded are used
     verif::Tape t(1, size);
     t.cap = 20000;
-    for (int i = 0; i < 50; i++) {
+    static const double G1[] = {1e-300, 1e-12, 1e-6, 0.01, 0.05, 0.125, 0.25, 0.375, 0.5, 0.625, 0.75, 0.875, 0.95, 0.99, 1 - 1e-6, 1 - 1e-12};
+    static const double G2[] = {1e-12, 0.3, 0.7, 1 - 1e-12};
+    for (int i = 0; i < 50 + 64; i++) {
       double e1 = -1, e2 = -1;
+      t.reseed(1, size * 131 + i);
+      if (i >= 50) {
+        t.pin(0, G1[(i - 50) % 16]);
+        t.pin(1, G2[(i - 50) / 16]);
+      }
       try {
         g.shoot_e1_e2(t, e1, e2);
       } catch (verif::tape_exhausted &) {
